@@ -524,7 +524,7 @@ type c17Wrong struct {
 
 func genC17Wrong(rt *rapid.T) c17Wrong {
 	return c17Wrong{VictimIL: rapid.Bool().Draw(rt, "vil"), PuppetIL: rapid.Bool().Draw(rt, "pil"),
-		Kind: rapid.SampledFrom([]string{"data", "idata", "fwd", "ifwd"}).Draw(rt, "kind"), TSNOff: rapid.IntRange(0, 5).Draw(rt, "tsnoff"),
+		Kind: rapid.SampledFrom([]string{"data", "idata", "fwd", "ifwd"}).Draw(rt, "kind"), TSNOff: rapid.SampledFrom([]int{0, 0, 1, 2, 5, -1, -2, -5, 100000, 1 << 30}).Draw(rt, "tsnoff"), // fresh, duplicate, far outside the window
 		AsClient: rapid.Bool().Draw(rt, "asclient"), Prior: rapid.IntRange(0, 3).Draw(rt, "prior")}
 }
 
